@@ -1,3 +1,4 @@
 import SC.Audit
 import SC.Properties.C17
+import SC.Properties.Src.C17
 #audit C17
